@@ -382,6 +382,8 @@ type Authenticator struct {
 	ecdhPrivKey    *ecdh.PrivateKey // ECDH private key for key exchange
 	sessionResumed bool             // Indicates if the current session was resumed
 
+	verif verifState // verification hooks (empty unless built with -tags verif)
+
 	// ServerConfigForCommand, if set, lets the server pick a per-command security
 	// policy: after the client's handshake reveals which command it wants to run,
 	// the returned SecurityConfig replaces the default for negotiation. This is how
@@ -650,6 +652,9 @@ func (a *Authenticator) performFullAuthentication(ctx context.Context, cache *Se
 		a.storeClientSession(negotiation, sessionDuration, sessionLease, cache)
 	}
 
+	if verifOn {
+		a.verifEv("HandshakeDone", negotiation, "full", true)
+	}
 	return negotiation, nil
 }
 
@@ -790,6 +795,9 @@ func (a *Authenticator) handleSessionResumption(ctx context.Context, sessionID s
 
 	slog.Info(fmt.Sprintf("🔐 SERVER: Successfully resumed session %s", redactSessionID(sessionID)), "destination", "cedar")
 
+	if verifOn {
+		a.verifEv("HandshakeDone", negotiation, "full", false, "entryKeyed", entry.KeyInfo() != nil)
+	}
 	return negotiation, nil
 }
 
@@ -914,6 +922,9 @@ func (a *Authenticator) ServerHandshakeWithMessage(ctx context.Context, msg *mes
 		return nil, fmt.Errorf("failed to send post-auth response: %w", err)
 	}
 
+	if verifOn {
+		a.verifEv("HandshakeDone", negotiation, "full", true)
+	}
 	return negotiation, nil
 }
 
@@ -1552,6 +1563,9 @@ func (a *Authenticator) resumeSession(ctx context.Context, entry *SessionEntry, 
 		}
 	}
 
+	if verifOn {
+		a.verifEv("HandshakeDone", negotiation, "full", false, "entryKeyed", entry.KeyInfo() != nil)
+	}
 	return negotiation, nil
 }
 
@@ -2220,6 +2234,9 @@ func (a *Authenticator) handleClientAuthentication(ctx context.Context, negotiat
 
 		// Perform the specific authentication method
 		err = a.performAuthentication(ctx, selectedMethod, negotiation)
+		if verifOn {
+			a.verifEv("AuthRan", nil, "ran", string(selectedMethod), "ok", err == nil)
+		}
 		if err != nil {
 			slog.Debug(fmt.Sprintf("🔐 CLIENT: Authentication method %s failed: %v", selectedMethod, err), "destination", "cedar")
 			attempts = append(attempts, AuthMethodAttempt{Method: selectedMethod, Err: err})
@@ -2313,6 +2330,9 @@ func (a *Authenticator) handleServerAuthentication(ctx context.Context, negotiat
 
 		// Perform the specific authentication method
 		err = a.performAuthentication(ctx, selectedMethod, negotiation)
+		if verifOn {
+			a.verifEv("AuthRan", nil, "ran", string(selectedMethod), "ok", err == nil)
+		}
 		if err != nil {
 			slog.Info(fmt.Sprintf("🔐 SERVER: Authentication method %s failed: %v", selectedMethod, err), "destination", "cedar")
 			// Continue the loop to wait for client's next attempt
